@@ -153,7 +153,7 @@ class LockStep:
     def _compare_factors(self, before, step_index):
         after = self.factors()
         changed = self.ref.last_factor_update
-        tol = 4 * (self.updates + 1) * max(1.0, math.sqrt(self.max_rows) / 4) * self.eps_factor
+        tol = 16 * (self.updates + 1) * max(1.0, math.sqrt(self.max_rows)) * self.eps_factor
         for n in self.names:
             L = self.ref.layers[n]
             for which, idx, refF in (('A', 0, L.A), ('G', 1, L.G)):
@@ -174,7 +174,7 @@ class LockStep:
                 if not torch.equal(b64, b64.t()):
                     return ('factor-asymmetric', f'step {step_index}: factor {which} of layer {n} is not exactly symmetric')
                 lmin = torch.linalg.eigvalsh(b64).min().item()
-                if lmin < -4 * self.eps_factor * max(b64.norm().item(), 1e-30) * math.sqrt(b64.shape[0]):
+                if lmin < -64 * self.eps_factor * max(b64.norm().item(), 1e-30) * b64.shape[0]:
                     return ('factor-not-psd', f'step {step_index}: factor {which} of layer {n} has eigenvalue {lmin:.3e}')
                 err = (b64 - refF).norm().item() / max(refF.norm().item(), 1e-300)
                 self.stats['worst_factor'] = max(self.stats['worst_factor'], err / tol)
